@@ -87,7 +87,8 @@ def rule_G6(prog, fixture=False):
 
 
 # =================================================================================================
-N3_FILES = re.compile(r"lib/corr\.cpp$|include/dsplib/tuner\.h$|lib/hilbert\.cpp$")
+N3_FILES = re.compile(r"lib/corr\.cpp$|include/dsplib/tuner\.h$|lib/hilbert\.cpp$|lib/window\.cpp$|lib/fir\.cpp$")
+N3_C11 = re.compile(r"lib/window\.cpp$|lib/fir\.cpp$")
 N3_C14 = re.compile(r"include/dsplib/tuner\.h$|lib/hilbert\.cpp$")
 
 
@@ -108,7 +109,7 @@ def rule_N3(prog, fixture=False):
             key = "N3:%s:mul%d" % (fkey(f), idx)
             where = "%s:%d" % (prog.rel(f.file), x.line)
             what = "%s in %s" % (x.text(), f.short)
-            n3p = {"props": ["C14"] if N3_C14.search(prog.rel(f.file)) else ["C16"]}
+            n3p = {"props": ["C14"] if N3_C14.search(prog.rel(f.file)) else (["C11"] if N3_C11.search(prog.rel(f.file)) else ["C16"])}
             if _is_constant(x.c[0]) or _is_constant(x.c[1]) or (x.get("w") or 0) > 32:
                 res.add(key, DISCHARGED, where, what, "constant factor or 64-bit arithmetic", func=f.name, extra=n3p)
                 continue
@@ -141,6 +142,10 @@ def rule_N3(prog, fixture=False):
                     break
                 if par.k in ("CXXStaticCastExpr", "CXXFunctionalCastExpr", "CStyleCastExpr") and par.tc == "float":
                     hit = par
+                    break
+                if par.k == "CallExpr" and par.tc == "float" and par.callee and re.match(
+                        r"^(std::)?(sqrt|cbrt|pow|exp|exp2|log|log2|log10|sin|cos|tan|atan|atan2|floor|ceil|round|fabs|abs|hypot)$", par.callee.get("qn") or ""):
+                    hit = par          # std::sqrt(i * (n - i)): the integral overload converts its argument to double
                     break
                 break
             if hit is not None:
